@@ -126,6 +126,11 @@ def generate(rng, tier):
             qs = all_queries(s)
             for runs in layouts(s):
                 yield {"runs": runs, "queries": qs}
+    # characters without a width (wcwidth -1): runs of one, of two, alone and next to ordinary runs
+    for c in "\n\t\x7f\x1b":
+        for runs in ([[c, ATTS3[0]]], [[c + c, ATTS3[1]]], [["a", ATTS3[0]], [c, ATTS3[1]]], [[c, ATTS3[0]], [WIDE, ATTS3[2]]],
+                     [["a" + c, ATTS3[0]]], [["", ATTS3[0]], [c, ATTS3[1]], ["b", ATTS3[2]]]):
+            yield {"runs": [list(r) for r in runs], "queries": all_queries("".join(t for t, _ in runs))}
     nrand = 6000 if tier == "thorough" else 300
     alpha_ok = "ab " + WIDE * 3 + COMB * 2 + "中́x"
     for k in range(nrand):
